@@ -37,7 +37,7 @@ RULE = (
     "cases = reproduced past failures; definition graphs (1-4 types, 0-3 aliases, 0-4 locals and an input referring "
     "to each other and to themselves at random: chains, cycles, undefined names, built-in aliases, several references "
     "to one definition; 80 whose symbol graph is small, which must come back, and 4 of the recorded growth classes; "
-    "each in a process of its own); every examples/*.tx3; the call-arity sweep (every callable name - the four "
+    "each in a process of its own); every examples/*.tx3 and the coverage-driven programs of frontp::extra_corpus (stake and vote delegation, named publish with a datum, policy constructors with every field combination, parameters of every type, metadata keys and values of every kind); the call-arity sweep (every callable name - the four "
     "built-ins, Ada, a declared asset, an unknown name - with 0-3 arguments of every kind, in a local, an amount, a "
     "datum, a validity bound and a min_amount); literal probes (boundary numerals, hex, UTxO references, "
     "strings with multi-byte characters, identifiers); random expansions of the grammar file itself from `program` "
